@@ -144,6 +144,23 @@ pub fn c13(cx: &mut Ctx) {
             }
         }
     }
+    // the accessor headers_map() on the flow made for a redirect: the same request the wire will carry
+    for t in ["http://b.test/t", "/same", "https://a.test/s"] {
+        for policy in ["never", "samehost"] {
+            for add in [false, true] {
+                cx.case("hmap");
+                if cx.rec.new_flow(&format!("POST HTTP/1.1 http://a.test/o {}", super::hdrs(&[("authorization", b"Basic c2VjcmV0"), ("cookie", b"sid=abc"), ("cookie", b"second=1"), ("content-length", b"5"), ("x-keep", b"1")]))) != "ok" { continue; }
+                let h = Hop { status: 302, locations: vec![t.as_bytes().to_vec()], body: false };
+                if !exchange_to_redirect(cx, &h) { continue; }
+                if !cx.op(&format!("follow {}", policy)).starts_with("flow ") { continue; }
+                if add { cx.op(&format!("hdr cookie {}", hx(b"fresh=1"))); cx.op(&format!("hdr authorization {}", hx(b"Bearer new"))); cx.op(&format!("hdr x-added {}", hx(b"v"))); }
+                cx.op("proceed");
+                cx.op("hmap");
+                cx.op("write 65536");
+                cx.op("hmap");
+            }
+        }
+    }
     // hosts that are IP literals (no "domain"): two different addresses are two different hosts
     for o in ["http://10.0.0.5/private", "http://[::1]/o", "https://192.168.1.1:8443/o"] {
         for t in ["http://169.254.169.254/latest/meta-data", "http://10.0.0.5/other", "//10.0.0.6/y", "http://[::2]/x", "http://[::1]:81/x", "https://192.168.1.1/s", "http://a.test/named", "/same"] {
@@ -344,7 +361,8 @@ pub fn c14(cx: &mut Ctx) {
     }
     // dot segments in every position of a path-absolute or relative Location — last segment, before the query,
     // the whole path — on the first and on the second hop (the second hop's base is a URI the library made)
-    for loc in ["/docs/v2/..", "/docs/v2/.", "/a/b/..?page=2", "/a/b/.?x", "/..", "/.", "/a/..", "/a/.", "/a/b/../..", "/a/./b/..", "/a/b/..#f", "a/..", "a/.", "../..", "/a/..;p", "/a/...", "/a/.b", "/a/b/%2e%2e"] {
+    for loc in ["https://app.test/#/login?next=/home", "guide.html#faq?", "#top?x=1", "/p#a?b#c", "?q=1#f?g=2", "/p?x#y?z", "#?",
+                "/docs/v2/..", "/docs/v2/.", "/a/b/..?page=2", "/a/b/.?x", "/..", "/.", "/a/..", "/a/.", "/a/b/../..", "/a/./b/..", "/a/b/..#f", "a/..", "a/.", "../..", "/a/..;p", "/a/...", "/a/.b", "/a/b/%2e%2e"] {
         for first in ["/start/here", "http://b.test/x/y?z"] {
             for hop2 in [false, true] {
                 cx.case("dots");
